@@ -46,8 +46,12 @@ OBLIGATIONS = [
     "SkVerif.C11.trend_deg0_eq_mean",
     "SkVerif.C11.trend_noicpt_eq_ols",
     "SkVerif.C11.adapter_selects_requested_steps",
+    "SkVerif.C11.refit_forgets_history",
+    "SkVerif.C11.naive_history_eq_fresh",
+    "SkVerif.C11.trend_history_eq_fresh",
 ]
-TRUSTED = ["hand-written models SkVerif/Model/Naive.lean (naive.py + _BaseWindowForecaster paths of _sktime.py) and SkVerif/Model/Trend.lean "
+TRUSTED = ["hand-written object-state model SkVerif/Model/History.lean (which attributes fit overwrites, which survive set_params / refit)",
+           "hand-written models SkVerif/Model/Naive.lean (naive.py + _BaseWindowForecaster paths of _sktime.py) and SkVerif/Model/Trend.lean "
            "(trend.py time axis / PolynomialFeatures on one column / closed-form OLS for degree <= 1; _statsmodels.py start/end/.loc selection), "
            "contiguous integer labels only",
            "statsmodels (ExponentialSmoothing, ETSModel) and sklearn (LinearRegression, PolynomialFeatures) as black boxes: the wrapped fitted "
